@@ -5,6 +5,8 @@ From SyModel Require Import Engine.
 From SyProofs Require Import Engine_proofs.
 From SyModel Require Import Links.
 From SyProofs Require Import Links_proofs.
+From SyGen Require Import StateGuards.
+From SyProofs Require Import StateGuards_proofs.
 Import ListNotations.
 
 Theorem C08_dry_run_changes_nothing : forall refuse ds c now U keep src dst,
@@ -53,3 +55,18 @@ Theorem C08_dry_run_announces_link_events : forall m s d,
   link_event m s d <> EvError -> dry_link_event m s d = link_event m s d.
 Proof. exact dry_run_announces_the_real_event. Qed.
 Print Assumptions C08_dry_run_announces_link_events.
+
+(* sy's own state files.  coq/gen/StateGuards.v is TRANSLATED from /repo/src/main.rs and src/sync/mod.rs on every run
+   (py/gen_stateguards.py): for each call that creates, rewrites or removes the resume state, the directory cache or the checksum
+   database -- eleven sites -- the flag conditions of the enclosing `if` blocks.  With --dry-run none of them can run, for every
+   combination of the other flags; and every site the translator knows was found in the source as it is now.  (The three
+   repairs abb537a, 7fce564 and 858b5e0 each added one of these conditions; removing one changes the generated guard and this
+   theorem no longer checks.) *)
+Theorem C08_dry_run_touches_no_state_file : forall f,
+  f_dry_run f = true -> forallb (fun g => negb (snd g f)) all_guards = true.
+Proof. exact dry_run_no_state_file. Qed.
+Print Assumptions C08_dry_run_touches_no_state_file.
+
+Theorem C08_all_state_sites_found : List.length all_guards = expected_sites.
+Proof. exact all_sites_found. Qed.
+Print Assumptions C08_all_state_sites_found.
